@@ -10,6 +10,16 @@ NOTE = ("Trusted base: the oracles/reference models in /verif/sim/src (small, sh
         "evidence, not proof.")
 
 CHECKS = {
+    "C02": dict(
+        text="Seeded exploration of pure tree programs (==, !=, conde, fresh) in generated / reversed / random posting orders "
+             "under simulated iteration orders of the constraint store (which of two subsuming disequalities survives, the order "
+             "constraints are re-run, the order of bindings inside one disequality) and yields. Over a finite universe of ground "
+             "terms the set of query assignments covered by the engine's answers (term + every reported disequality, hidden "
+             "variables existential) must equal the set the program accepts, computed by brute force (or by the reference "
+             "interpreter when hidden variables need witnesses). Exhaustive over atoms^nq, sampled over the rest.",
+        design="7 (C02), 4 (R2), 1 (N1)",
+        technique="deterministic simulation: seeded constraint-store iteration order + posting-order permutations, ground-instance set oracle",
+    ),
     "C05": dict(
         text="Seeded exploration of dfs{} programs under every leaf timing/shape, yield and reorder: an observer goal placed "
              "last inside the dfs block must see the block's answers in exactly the reference interpreter's depth-first "
